@@ -13,6 +13,12 @@ MODULE = 'Props.C06'
 THEOREMS = ['Vakt.C06.exact_iff', 'Vakt.C06.fuzzy_iff', 'Vakt.C06.inner_spec', 'Vakt.C06.string_total',
             'Vakt.C06.rule_policy_never_string', 'Vakt.C06.string_policy_never_rules',
             'Vakt.C06.cross_type_denied']
+# StringChecker.fits with the two comparisons, translated from /repo/vakt/checker.py in this run (harness/pytolean.py ->
+# lean/Gen/Checkers.lean), is the model's exactFits / fuzzyFits (lean/Gen/EquivCheckers.lean; a separate build target)
+EXTRA_BUILD = ['+Gen.EquivCheckers']
+GEN_IMPORTS = ['Gen.EquivCheckers']
+GEN_THEOREMS = ['Vakt.GenEquiv.gen_StringExactChecker_fits', 'Vakt.GenEquiv.gen_StringFuzzyChecker_fits',
+                'Vakt.GenEquiv.tag_branch', 'Vakt.GenEquiv.translatedCheckers_covers']
 FLOOR = {'quick': 2000, 'thorough': 20000}
 
 
